@@ -4,12 +4,13 @@
 # (or, per the brief, a broken obligation reported with no-failing-input-found): both are worth knowing.
 cd "$(dirname "$0")/.."
 patch=$1; shift
+L=/tmp/verif-check.lock; [ "$PWD" != /verif ] && L=/tmp/verif-check-$(echo $PWD | md5sum | cut -c1-8).lock
 tmp=$(mktemp -d /tmp/harmless.XXXX); rsync -a --exclude .git --exclude _h --exclude _seed /repo/ $tmp/repo/
 if ! (cd $tmp/repo && git apply --unsafe-paths $patch 2>/dev/null || patch -p1 -s < $patch); then echo "$patch: does not apply"; rm -rf $tmp; exit 2; fi
 for pid in "$@"; do
   cp evidence/$pid.json $tmp/evidence.$pid.json 2>/dev/null
-  out=$(VERIF_REPO=$tmp/repo flock /tmp/verif-check.lock ./check $pid 2>&1)
-  echo "$(basename $(dirname $(dirname $patch)))/$(basename $patch) $pid: $(echo "$out" | grep -E "^VIOLATION|OK tier|FAILED tier" | tr '\n' ' ')"
+  out=$(VERIF_REPO=$tmp/repo flock $L ./check $pid 2>&1)
+  echo "$(basename $(dirname $patch))/$(basename $patch) $pid: $(echo "$out" | grep -E "^VIOLATION|OK tier|FAILED tier" | tr '\n' ' ')"
   echo "$out" | grep -E "^  " | head -4
   for r in $(echo "$out" | grep -oE "replay=[^ ]+" | cut -d= -f2); do python3 -c "
 import json,sys
